@@ -121,3 +121,5 @@ end LP.Props.C07
 #print axioms LP.Props.C07.confirm_effect
 #print axioms LP.Props.C07.confirm_holdings
 #print axioms LP.Props.C07.confirm_wrong_payment_rejected
+
+#print axioms LP.Props.C07.confirmTickets_ok_iff
